@@ -155,4 +155,6 @@ def label_to_op(label):
         return {"op": "getinit"}
     if name == "Rate":
         return {"op": "rate", "rater": a[0]}
+    if name == "Around":
+        return {"op": a[0], "rater": a[1]}
     raise ValueError(f"unknown action label {label!r}")
